@@ -7,7 +7,7 @@ Inductive panic_site :=
   | POverflow       (* arithmetic overflow (debug) / wrap (release) *)
   | PDivZero        (* GF division by zero (assert_ne) *)
   | PAssert         (* assert!, debug_assert!, unreachable!, panic!, expect/unwrap on None *)
-  | PAssertLD       (* the cfg!(debug_assertions) self-check of eq. (3)/(4) in the Levinson-Durbin loop (absent from release builds) *)
+  | PAssertLD       (* the cfg!(debug_assertions) self-checks inside the Levinson-Durbin loop: eq. (3)/(4) after each iteration, the gamma re-check (absent from release builds) *)
   | POutOfFuel      (* model artefact: excluded by fuel lemmas *)
   | PBadOracle.     (* model artefact: an oracle input (sort order of the implementation) fails its contract *)
 
